@@ -283,22 +283,6 @@ pub fn exec_par(w: &mut World, st: &Step) -> bool {
             _ => {}
         }
     }
-    // spurious failures
-    if w.oracles.fault_free {
-        for h in &hist {
-            if !h.ok {
-                w.viol(
-                    &["C07"],
-                    &format!("concurrent-op-failed/{}", err_class(&h.err)),
-                    format!(
-                        "{what}: client {} {} failed while other operations were in flight: {}",
-                        h.client, h.desc, h.err
-                    ),
-                );
-                return false;
-            }
-        }
-    }
     // Known finding KF02: a discard that overlaps in time with a write_at to
     // the same guest cluster frees the host cluster under the write; the
     // write's data then lands in a cluster that may already belong to someone
@@ -324,6 +308,22 @@ pub fn exec_par(w: &mut World, st: &Step) -> bool {
         // the damage (data written into a freed cluster) may surface later
         w.kf02_tainted = true;
         crate::props::KF02_TAINT.with(|t| t.set(true));
+    }
+    // spurious failures
+    if w.oracles.fault_free {
+        for h in &hist {
+            if !h.ok {
+                w.viol(
+                    &["C07"],
+                    &format!("concurrent-op-failed/{}", err_class(&h.err)),
+                    format!(
+                        "{what}: client {} {} failed while other operations were in flight: {}",
+                        h.client, h.desc, h.err
+                    ),
+                );
+                return false;
+            }
+        }
     }
     let kf = if w.kf02_tainted { "/discard-racing-write-same-cluster" } else { "" };
     // Known finding KF03: the mapping of a freshly allocated cluster is
